@@ -209,6 +209,18 @@ int encode_operands(struct instr *instrc) {
     }
     instrc->rd_offset = instrc->opd[0].reg & VALUE_MASK;
   }
+  // movzx: the opcode byte (0F B6 / 0F B7) follows the width of the source
+  // alone, the 0x66 prefix that of the destination
+  if (NAME(instrc->key, movzx)) {
+    unsigned int src_mode = instrc->opd[1].reg & MODE_MASK;
+    bool src_is_word = instrc->mem_disp
+                           ? instrc->keyword.is_word
+                           : (src_mode == reg16 || src_mode == ext16);
+    instrc->op_offset = src_is_word ? 1 : 0;
+    int ret = encode_two_opds(instrc, FIRST_OPERAND, SECOND_OPERAND);
+    instrc->keyword.is_word = false;
+    return ret;
+  }
   // set 'byte' keyword
   if (instrc->mem_disp)
     auto_set_byte(instrc);
